@@ -4,6 +4,12 @@ Model: spec/ValueAlgebra.tla (ImplEq, ImplSameHash, ImplUnite) + spec/Algebra.tl
 named deviation classes).  TLC checks the laws on every triple of the bounded term space; every
 triple is replayed through the real unite_values / == / hash / can_assign / substitute_typevars and
 TLC adjudicates the real results (AlgebraTrace.tla).
+
+Context slice: spec/SubstContexts.tla generates terms as CONTEXTS WITH A HOLE (one frame per sub-value position of
+every Value class, nested) x filler x type-variable map, and pairs of contexts for the equality / hash laws.  TLC
+checks the laws on the model (ImplSubstF, ImplEq, ImplSameHash, ImplWalkVars against the structural oracle FreeVars /
+RefSubst / Norm / RefSame) and emits every case in the same run; each case is replayed through the real
+substitute_typevars / unite_values / == / hash / extract_typevars and adjudicated by SubstContextsTrace.tla.
 """
 from __future__ import annotations
 
@@ -292,14 +298,14 @@ def run(check: core.Check) -> None:
         "triples: 49 terms (literals incl. unhashable ones, typed, generic, sequence, subclass, newtype, typevars, unions incl. "
         "permuted and nested ones, TypedDict values incl. read-only / non-required generic entries, dict displays with "
         "optional and unpacked entries) x 6 type-variable maps",
-        "contexts (SubstContexts.tla): 50 one-hole frames = every sub-value position of GenericValue (list / dict key / dict value), "
+        "contexts (SubstContexts.tla): 44 one-hole frames = every sub-value position of GenericValue (list / dict key / dict value), "
         "SequenceValue (fixed, unpacked member, list display), DictIncompleteValue (key, value, optional, is_many), TypedDictValue "
-        "(required / not required / read-only entry, extra_keys, extra_keys_readonly), SubclassValue (plain / exactly), "
+        "(required / not required / read-only entry, two entries in both declaration orders, extra_keys, extra_keys_readonly), SubclassValue (plain / exactly), "
         "MultiValuedValue (left / right member), AnnotatedValue (value, plain metadata, TypeGuard / TypeIs / ParameterTypeGuard / "
-        "NoReturnGuard / HasAttr / HasAttrGuard extensions, CustomCheck), CallableValue (positional-only / with default / "
+        "NoReturnGuard / HasAttr / HasAttrGuard extensions, CustomCheck + plain metadata in both orders), CallableValue (positional-only / with default / "
         "positional-or-keyword / *args / keyword-only / **kwargs annotation, return value, asynq, two named parameters in both "
         "orders), UnpackedValue, AsyncTaskIncompleteValue; nested to depth "
-        + ("2" if quick else "3 (depth 3: 17 outer x 50 x 5 inner frames)")
+        + ("2" if quick else "3 (depth 3: 17 outer x 44 x 5 inner frames)")
         + "; fillers T, S, int and a literal of a function; 8 maps incl. a chain (T -> list[S], S -> int) and a swap (T -> S, S -> T)"
         + ("; at depth 2 each filler gets the 3-4 maps that touch it differently" if quick else ""),
         "not in the space: ParamSpec parameters (Signature.substitute_typevars splices the mapped signature), TypeVarValue bounds / "
